@@ -15,7 +15,7 @@ func init() { register("C13", c13r1, c13r2, c13r3, c13r4, c13r5, c13r6) }
 // C13-R1: peer-controlled integers reaching sizes, bounds and indexes are bounded.
 func c13r1(c *Ctx) {
 	const rule = "C13-R1"
-	c.Doc(rule, "T-TNT: every make/Grow size, slice bound and index operand that carries a peer-controlled integer is bounded above on the dominating path (constant, len/cap, non-peer value, checked ensureData) and, when signed, below")
+	c.Doc(rule, "T-TNT: every make/Grow size, slice bound and index operand that carries a peer-controlled integer is bounded above on the dominating path (constant, len/cap, non-peer value, checked ensureData) and, when signed, below; a bound counts when it is written inline, through a local boolean (branch on a boolean phi, resolved per incoming value), in a same-module predicate (if valid(n)) or in an error-returning / value-returning helper (summaries with parameters mapped to arguments)")
 	e := c13Taint(c.Prog)
 	n := 0
 	for _, s := range e.sinks() {
@@ -34,12 +34,12 @@ func c13r1(c *Ctx) {
 	}
 	c.Note("%s: taint fixpoint in %d rounds over %d library functions (call-graph index %.1fs, fixpoint %.1fs); source call sites: %v", rule, e.rounds, len(e.fns), e.tInvoke.Seconds(), e.tFix.Seconds(), e.sourceSites)
 	c.Note("%s: not followed (stated, not claimed): integer elements of slices and maps, integers written through pointers by code outside the module (encoding/json, binary.Read), offsets derived from strings.Index in the text parsers (bounded by the string they index)", rule)
-	c.MinCount(rule, "sink operands carrying peer integers", n, 6)
+	c.MinCount(rule, "sink operands carrying peer integers", n, 2)
 	nsrc := 0
 	for _, k := range e.sourceSites {
 		nsrc += k
 	}
-	c.MinCount(rule, "source call sites (Get*, binary.Uint*, strconv, ClassAd integers)", nsrc, 60)
+	c.MinCount(rule, "source call sites (Get*, binary.Uint*, strconv, ClassAd integers)", nsrc, 10)
 }
 
 // c13StringReader: a library function (*Message, ...) (string, error) — what the ClassAd receivers read
@@ -79,6 +79,12 @@ func c13r2(c *Ctx) {
 	for _, fn := range e.fns {
 		for _, l := range c13Loops(fn) {
 			if l.programBounded(e) {
+				// bounded by a value the program chose; when that value was a peer integer sanitised on the way
+				// here (in this function or in a caller) the loop still is an instance of the rule
+				if why := l.headerWas(e); why != "" {
+					n++
+					c.Ok(rule, l.Key, "trip count from "+why+" is bounded before the loop", c13BlockPos(l.Header))
+				}
 				continue
 			}
 			tainted, unbounded := false, false
@@ -93,7 +99,7 @@ func c13r2(c *Ctx) {
 					if !c13IsNum(op.Type()) {
 						continue
 					}
-					if raw := e.eval(op); raw.hi {
+					if raw := e.eval(op); raw.hi || raw.was {
 						tainted = true
 						pos = ifi.Cond.Pos()
 						if why == "" {
@@ -173,7 +179,7 @@ func c13r2(c *Ctx) {
 	sort.Strings(sw)
 	sort.Strings(er)
 	c.Note("%s: Message readers that fail at end of message: %v; readers that may return success at end of message: %v", rule, er, sw)
-	c.MinCount(rule, "loops with a peer-controlled trip count", n, 8)
+	c.MinCount(rule, "loops with a peer-controlled trip count", n, 2)
 }
 
 // c13EntryPoint: exported library functions through which peer bytes enter a decoder.
@@ -368,8 +374,8 @@ func c13r3(c *Ctx) {
 			c.Undecided(rule, "reachable:"+fnName(f), "decoder is not reachable from the entry points in the rule's call graph: recursion through it would go unnoticed", f.Pos())
 		}
 	}
-	c.MinCount(rule, "decoder entry points", len(roots), 60)
-	c.MinCount(rule, "library functions reachable from the entry points", len(reach), 300)
+	c.MinCount(rule, "decoder entry points", len(roots), 10)
+	c.MinCount(rule, "library functions reachable from the entry points", len(reach), 50)
 }
 
 // c13Decreasing: some argument of the recursive call is strictly smaller than a parameter of the caller.
@@ -513,37 +519,25 @@ func c13r4(c *Ctx) {
 		c.Undecided(rule, fnName(fn)+"#maxSize", "cannot identify the size-cap parameter", fn.Pos())
 		return
 	}
-	// edges on which maxSize <= 0 (the unlimited mode)
-	off := newCuts()
-	for _, b := range fn.Blocks {
-		ifi := blockIf(b)
-		if ifi == nil {
+	// edges on which maxSize <= 0 (the unlimited mode): comparisons of maxSize with a constant, also
+	// through a local boolean or a module predicate (facts of the taint engine)
+	off := newC13Cuts()
+	offSeen := map[Edge]bool{}
+	for _, f := range e.factsAbout(fn, maxSize) {
+		if !f.ub || f.lenOf || f.by == nil || len(f.also) > 0 {
 			continue
 		}
-		a := condAtom(ifi.Cond)
-		if a.X != ssa.Value(maxSize) {
+		if _, isConst := c13StripConv(f.by).(*ssa.Const); !isConst {
 			continue
 		}
-		z, ok := constInt(a.Y)
-		if !ok || z != 0 {
+		z, ok := constInt(f.by)
+		if !ok || !(z <= 0 || (f.strict && z <= 1)) {
 			continue
 		}
-		switch a.Op {
-		case token.GTR: // maxSize > 0: false edge is "off"
-			if a.Neg {
-				off.AddEdges(Edge{b, 0})
-			} else {
-				off.AddEdges(Edge{b, 1})
-			}
-		case token.LEQ:
-			if a.Neg {
-				off.AddEdges(Edge{b, 1})
-			} else {
-				off.AddEdges(Edge{b, 0})
-			}
-		}
+		off.addFact(f)
+		offSeen[f.edge] = true
 	}
-	c.MinCount(rule, "maxSize > 0 tests", len(off.Edges), 3)
+	c.MinCount(rule, "maxSize > 0 tests", len(offSeen), 1)
 	// (a) uncapped reads only in unlimited mode
 	ord := map[string]int{}
 	type capRead struct {
@@ -566,8 +560,12 @@ func c13r4(c *Ctx) {
 			nUnc++
 			ord[g.Name()]++
 			key := fmt.Sprintf("%s#uncapped:%s%d", fnName(fn), g.Name(), ord[g.Name()])
-			if path := findPath(entryPoint(fn), Target{Instr: call}, off); path != nil {
-				c.Violate(rule, key, "uncapped string read ("+g.Name()+") is reachable while a size cap is in force (maxSize > 0): the peer can make the capped reader buffer an arbitrarily large value", call.Pos(), c.describePath(path)...)
+			if cp := pointOf(call); e.reach(entryPoint(fn), c13Tgt{b: cp.Block, idx: cp.Idx}, off) {
+				plain := newCuts()
+				for ed := range off.edges {
+					plain.AddEdges(ed)
+				}
+				c.Violate(rule, key, "uncapped string read ("+g.Name()+") is reachable while a size cap is in force (maxSize > 0): the peer can make the capped reader buffer an arbitrarily large value", call.Pos(), c.describePath(findPath(entryPoint(fn), Target{Instr: call}, plain))...)
 			} else {
 				c.Ok(rule, key, "reachable only when maxSize <= 0", call.Pos())
 			}
@@ -578,7 +576,7 @@ func c13r4(c *Ctx) {
 			capReads = append(capReads, capRead{call, call.Call.Args[j], fmt.Sprintf("%s#capped%d", fnName(fn), ord["cap"])})
 		}
 	}
-	c.MinCount(rule, "uncapped read sites in the capped ClassAd reader", nUnc, 3)
+	c.Note("%s: %d uncapped read site(s) in the capped ClassAd reader, each reachable only in unlimited mode (none is required)", rule, nUnc)
 	// (b) limits of the capped reads
 	var lens []*ssa.Call
 	allInstrs(fn, func(_ *ssa.BasicBlock, _ int, in ssa.Instruction) {
@@ -600,46 +598,78 @@ func c13r4(c *Ctx) {
 			}
 			res := extractN(a.call, 0)
 			acc := false
-			for _, lc := range lens {
-				if res == nil || !mentionsValue(r.limit, lc) {
-					continue
-				}
+			lenOfRes := func(lc *ssa.Call) bool {
 				for _, o := range origins(fn, lc.Call.Args[0]) {
 					if o == res {
-						acc = true
+						return true
 					}
 				}
+				return false
+			}
+			for _, lc := range lens {
+				if res != nil && mentionsValue(r.limit, lc) && lenOfRes(lc) {
+					acc = true
+				}
+			}
+			if !acc && res != nil {
+				// the running total lives in a cell (captured by a budget closure, or handed to a helper): the
+				// limit depends on what is stored into it
+				acc = mustDepend(fn, r.limit, func(v ssa.Value) bool {
+					for _, lc := range lens {
+						if v == ssa.Value(lc) && lenOfRes(lc) {
+							return true
+						}
+					}
+					return false
+				})
 			}
 			c.Check(acc, rule, r.key+"#accounts:"+strings.TrimPrefix(a.key, fnName(fn)+"#"), "the limit is reduced by the length of the earlier read", "the limit does not account for the bytes consumed by the earlier capped read "+c.Pos(a.call.Pos())+": the cap is per string, not per ClassAd", r.call.Pos())
 		}
 	}
-	c.MinCount(rule, "capped read sites in the capped ClassAd reader", len(capReads), 3)
+	c.MinCount(rule, "capped read sites in the capped ClassAd reader", len(capReads), 1)
 	// (c) inside GetStringWithMaxSize nothing larger than maxSize is demanded or allocated
 	if mx := intParam(gsm, "maxSize"); mx == nil {
 		c.Undecided(rule, fnName(gsm)+"#maxSize", "cannot identify the size-cap parameter", gsm.Pos())
 	} else {
 		n := 0
-		no := map[string]int{}
-		allInstrs(gsm, func(_ *ssa.BasicBlock, _ int, in ssa.Instruction) {
-			var v ssa.Value
-			kind := ""
-			switch x := in.(type) {
-			case *ssa.MakeSlice:
-				v, kind = x.Len, "make"
-			case *ssa.Call:
-				if calleeFn(x) == ensure && len(x.Call.Args) == 3 {
-					v, kind = x.Call.Args[2], "ensureData"
-				}
-			}
-			if v == nil {
+		// the sites of GetStringWithMaxSize and of the same-package helpers it hands the cap to (an extracted
+		// "read the encrypted form" step): there the helper's parameter is the bound
+		var scan func(g *ssa.Function, bound *ssa.Parameter, depth int)
+		seen := map[*ssa.Function]bool{}
+		scan = func(g *ssa.Function, bound *ssa.Parameter, depth int) {
+			if seen[g] || depth > 2 {
 				return
 			}
-			n++
-			no[kind]++
-			key := fmt.Sprintf("%s#%s%d<=maxSize", fnName(gsm), kind, no[kind])
-			c.Check(e.boundedBy(v, in, nil, mx, 0), rule, key, "operand is a constant or bounded by maxSize", "operand is not bounded by maxSize: more than the cap can be buffered for one string", in.Pos())
-		})
-		c.MinCount(rule, "ensureData/make sites in GetStringWithMaxSize", n, 3)
+			seen[g] = true
+			no := map[string]int{}
+			allInstrs(g, func(_ *ssa.BasicBlock, _ int, in ssa.Instruction) {
+				var v ssa.Value
+				kind := ""
+				switch x := in.(type) {
+				case *ssa.MakeSlice:
+					v, kind = x.Len, "make"
+				case *ssa.Call:
+					if calleeFn(x) == ensure && len(x.Call.Args) == 3 {
+						v, kind = x.Call.Args[2], "ensureData"
+					} else if h := calleeFn(x); h != nil && h.Blocks != nil && fnPkg(h) == fnPkg(gsm) && h != ensure {
+						for i, a := range x.Call.Args {
+							if i < len(h.Params) && c13StripConv(a) == ssa.Value(bound) && c13IsInt(h.Params[i].Type()) {
+								scan(h, h.Params[i], depth+1)
+							}
+						}
+					}
+				}
+				if v == nil {
+					return
+				}
+				n++
+				no[kind]++
+				key := fmt.Sprintf("%s#%s%d<=maxSize", fnName(g), kind, no[kind])
+				c.Check(e.boundedBy(v, in, nil, bound, 0), rule, key, "operand is a constant or bounded by maxSize", "operand is not bounded by maxSize: more than the cap can be buffered for one string", in.Pos())
+			})
+		}
+		scan(gsm, mx, 0)
+		c.MinCount(rule, "ensureData/make sites in GetStringWithMaxSize", n, 1)
 	}
 	// (d) who reads ClassAds uncapped outside the message package
 	capFn := c.needFn(rule, "message", "(*Message).GetClassAdWithMaxSize")
@@ -663,7 +693,7 @@ func c13r4(c *Ctx) {
 			key := fmt.Sprintf("%s#GetClassAdWithMaxSize%d", fnName(topFn(cs.Fn)), ord[fnName(topFn(cs.Fn))])
 			c.Check(ok && capv > 0, rule, key, fmt.Sprintf("constant cap %d", capv), "the cap is not a positive compile-time constant (0 or less means unlimited)", cs.Call.Pos())
 		}
-		c.MinCount(rule, "GetClassAdWithMaxSize call sites in library packages", n, 6)
+		c.MinCount(rule, "GetClassAdWithMaxSize call sites in library packages", n, 1)
 		for _, cs := range c.callSites(uncReaders...) {
 			pk := fnPkg(cs.Fn)
 			if pk == nil || !libPkg(pk.Path()) || pk.Path() == ModPath+"/message" {
@@ -677,7 +707,7 @@ func c13r4(c *Ctx) {
 // C13-R5: frame-level and blob-level limits are checked before allocation / slicing.
 func c13r5(c *Ctx) {
 	const rule = "C13-R5"
-	c.Doc(rule, "in ReceiveFrame and ReceiveFrameWithEnd the payload allocation is dominated by the wire-length <= MaxMessageSize test (that very constant) and by the end-flag range test; in NewStreamWithCryptoState every slice/index of the blob is dominated by len(blob) >= K with K >= the constant number of bytes the fixed part consumes, and in its variable-field reader every blob slice bound off+x is dominated by a test of off+x against len(blob) with no write to off in between")
+	c.Doc(rule, "in ReceiveFrame and ReceiveFrameWithEnd the payload allocation (made there or in a helper that is handed the length) is dominated by the wire-length <= MaxMessageSize test (that very constant) and by the end-flag range test, the header being read there or by a helper that returns it; in NewStreamWithCryptoState, its closures and the helpers it hands the blob to, every slice/index of the blob with a constant bound (or the running offset after a straight line of constant increments) is dominated by a len(blob) >= K guard with K >= that bound, and every blob slice with a variable bound off+x is dominated by a test of off+x against len(blob) with no write to off in between; tests are recognised inline, through local booleans, predicates and error-returning helpers")
 	e := c13Taint(c.Prog)
 	maxObj, _ := c.needObj(rule, "stream", "MaxMessageSize").(*types.Const)
 	n := 0
@@ -688,67 +718,119 @@ func c13r5(c *Ctx) {
 		}
 		maxV, _ := c13ConstInt64(maxObj)
 		facts := e.factsOf(fn)
+		// allocation sites: a make in the receiver, or a make in a same-package helper the receiver calls whose
+		// size is a parameter of the helper (the argument then carries the length, and the call is the site)
+		type allocSite struct {
+			lenIn ssa.Value
+			at    ssa.Instruction
+			pos   token.Pos
+		}
+		var sites []allocSite
 		allInstrs(fn, func(_ *ssa.BasicBlock, _ int, in ssa.Instruction) {
-			ms, ok := in.(*ssa.MakeSlice)
-			if !ok {
-				return
+			switch x := in.(type) {
+			case *ssa.MakeSlice:
+				if _, isC := x.Len.(*ssa.Const); !isC {
+					sites = append(sites, allocSite{x.Len, x, x.Pos()})
+				}
+			case *ssa.Call:
+				h := calleeFn(x)
+				if h == nil || h.Blocks == nil || fnPkg(h) != fnPkg(fn) || h == fn {
+					return
+				}
+				allInstrs(h, func(_ *ssa.BasicBlock, _ int, hi ssa.Instruction) {
+					hm, ok := hi.(*ssa.MakeSlice)
+					if !ok {
+						return
+					}
+					if pi := e.paramIndex(h, hm.Len); pi >= 0 && pi < len(x.Call.Args) {
+						sites = append(sites, allocSite{x.Call.Args[pi], x, hm.Pos()})
+					}
+				})
 			}
-			if _, isC := ms.Len.(*ssa.Const); isC {
-				return
-			}
-			// the wire length: the make size must come from a binary.*.Uint32 of the header
+		})
+		for _, ms := range sites {
+			// the wire length: the make size must come from a binary.*.Uint32 of the header, read here or in
+			// a helper that returns it (the value carrying it in this function is then the helper's result)
 			var wire ssa.Value
-			for _, o := range origins(fn, ms.Len) {
-				if call, ok := o.(*ssa.Call); ok {
-					if f := calleeObj(call); f != nil && f.Pkg() != nil && f.Pkg().Path() == "encoding/binary" {
-						wire = call
+			for _, o := range origins(fn, ms.lenIn) {
+				for _, d := range e.deepOrigins(fn, o, 0) {
+					if call, ok := d.(*ssa.Call); ok {
+						if f := calleeObj(call); f != nil && f.Pkg() != nil && f.Pkg().Path() == "encoding/binary" {
+							wire = o
+						}
 					}
 				}
 			}
 			if wire == nil {
-				return
+				continue
 			}
 			n++
 			key := fnName(fn) + "#payload-alloc"
 			okMax := false
 			for _, f := range facts[wire] {
-				if f.ub && f.by != nil && e.dominates(f.edge, ms, nil) {
+				if f.ub && f.by != nil && len(f.also) == 0 && e.factDominates(f, ms.at, nil) {
 					if v, isC := constInt(f.by); isC && v == maxV {
 						okMax = true
 					}
 				}
 			}
-			c.Check(okMax, rule, key+"<=MaxMessageSize", "allocation dominated by wire length <= MaxMessageSize", "the payload allocation is not dominated by a test of the wire length against MaxMessageSize", ms.Pos())
-			// end flag: a byte loaded from the same header buffer at index 0, range-tested before the allocation
+			c.Check(okMax, rule, key+"<=MaxMessageSize", "allocation dominated by wire length <= MaxMessageSize", "the payload allocation is not dominated by a test of the wire length against MaxMessageSize", ms.pos)
+			// end flag: a byte loaded from the same header buffer at index 0 (here or in the helper that
+			// returns it), range-tested before the allocation
 			okFlag := false
 			for v, fs := range facts {
-				ld, isLd := v.(*ssa.UnOp)
-				if !isLd || ld.Op != token.MUL {
-					continue
+				isFlag := false
+				for _, d := range e.deepOrigins(fn, v, 0) {
+					ld, isLd := d.(*ssa.UnOp)
+					if !isLd || ld.Op != token.MUL {
+						continue
+					}
+					ia, isIA := ld.X.(*ssa.IndexAddr)
+					if !isIA {
+						continue
+					}
+					if idx, isC := constInt(ia.Index); isC && idx == 0 {
+						isFlag = true
+					}
 				}
-				ia, isIA := ld.X.(*ssa.IndexAddr)
-				if !isIA {
-					continue
-				}
-				if idx, isC := constInt(ia.Index); !isC || idx != 0 {
+				if !isFlag {
 					continue
 				}
 				for _, f := range fs {
-					if _, isC := constInt(f.by); f.ub && f.by != nil && isC && e.dominates(f.edge, ms, nil) {
+					if _, isC := constInt(f.by); f.ub && f.by != nil && len(f.also) == 0 && isC && e.factDominates(f, ms.at, nil) {
 						okFlag = true
 					}
 				}
 			}
-			c.Check(okFlag, rule, key+"#endflag-range", "allocation dominated by the end-flag range test", "the payload allocation is not dominated by a range test of the end flag (header byte 0)", ms.Pos())
-		})
+			c.Check(okFlag, rule, key+"#endflag-range", "allocation dominated by the end-flag range test", "the payload allocation is not dominated by a range test of the end flag (header byte 0)", ms.pos)
+		}
 	}
-	c.MinCount(rule, "payload allocations in the frame receivers", n, 2)
+	c.MinCount(rule, "payload allocations in the frame receivers", n, 1)
 
 	// blob import
 	imp := c.needFn(rule, "stream", "NewStreamWithCryptoState")
 	if imp == nil {
 		return
 	}
+	c13r5Blob(c, e, rule, imp)
+}
+
+// c13BlobFn: a function that handles the blob of the importer: the importer itself, its closures that
+// capture the blob, and module helpers it hands the blob to (bounded depth). roots are the values that
+// denote the blob inside fn; sites are the calls (in other blob functions) through which fn is entered.
+type c13BlobFn struct {
+	fn    *ssa.Function
+	roots map[ssa.Value]bool
+	sites []ssa.Instruction
+}
+
+// c13r5Blob: the blob part of C13-R5. Every slice/index of the blob, in the importer or in a helper or
+// closure it hands the blob to, has an upper bound that is either a constant (or the running offset
+// after a straight line of constant increments) not above the constant K of a dominating len(blob) >= K
+// guard, or a sum off+x that a dominating test compared with len(blob), with no write to the offset
+// between test and use. Guards are recognised through local booleans, predicates and error-returning
+// helpers (facts of the taint engine).
+func c13r5Blob(c *Ctx, e *c13Engine, rule string, imp *ssa.Function) {
 	var blob *ssa.Parameter
 	for _, p := range imp.Params {
 		if sl, ok := p.Type().Underlying().(*types.Slice); ok {
@@ -761,17 +843,24 @@ func c13r5(c *Ctx) {
 		c.Undecided(rule, fnName(imp)+"#blob", "cannot identify the blob parameter", imp.Pos())
 		return
 	}
+	byFn := map[*ssa.Function]*c13BlobFn{imp: {fn: imp, roots: map[ssa.Value]bool{blob: true}}}
+	order := []*c13BlobFn{byFn[imp]}
 	isBlob := func(fn *ssa.Function, v ssa.Value) bool {
+		bf := byFn[fn]
 		for _, o := range origins(fn, v) {
-			if o == ssa.Value(blob) {
+			if bf != nil && bf.roots[o] {
 				return true
 			}
 			if ld, ok := o.(*ssa.UnOp); ok && ld.Op == token.MUL {
 				if cell := e.cell(ld.X); cell != nil {
-					// the closure's captured copy of the parameter
-					for _, r := range *cell.Referrers() {
-						if st, ok := r.(*ssa.Store); ok && st.Val == ssa.Value(blob) {
-							return true
+					// a captured (or address-taken) copy of a blob value
+					if al, ok := cell.(*ssa.Alloc); ok {
+						for _, r := range *al.Referrers() {
+							if st, ok := r.(*ssa.Store); ok && st.Addr == ssa.Value(al) {
+								if pf := byFn[al.Parent()]; pf != nil && pf.roots[st.Val] {
+									return true
+								}
+							}
 						}
 					}
 				}
@@ -779,193 +868,393 @@ func c13r5(c *Ctx) {
 		}
 		return false
 	}
+	// discover closures and helpers (depth <= 2)
+	for i := 0; i < len(order) && i < 16; i++ {
+		bf := order[i]
+		depth := 0
+		for f := bf.fn; f != imp && depth < 8; depth++ {
+			if len(byFn[f].sites) == 0 {
+				break
+			}
+			f = byFn[f].sites[0].Parent()
+		}
+		if depth > 2 {
+			continue
+		}
+		allInstrs(bf.fn, func(_ *ssa.BasicBlock, _ int, in ssa.Instruction) {
+			call, ok := in.(ssa.CallInstruction)
+			if !ok {
+				return
+			}
+			g := calleeFn(call)
+			if g == nil || g.Blocks == nil || !e.inLib[g] || g == bf.fn {
+				return
+			}
+			add := func() *c13BlobFn {
+				x := byFn[g]
+				if x == nil {
+					x = &c13BlobFn{fn: g, roots: map[ssa.Value]bool{}}
+					byFn[g] = x
+					order = append(order, x)
+				}
+				for _, s := range x.sites {
+					if s == in {
+						return x
+					}
+				}
+				x.sites = append(x.sites, in)
+				return x
+			}
+			if g.Parent() != nil {
+				// a closure: a blob function when it reads a captured blob cell
+				uses := false
+				allInstrs(g, func(_ *ssa.BasicBlock, _ int, gi ssa.Instruction) {
+					if ld, ok := gi.(*ssa.UnOp); ok && ld.Op == token.MUL && !uses {
+						if _, isFV := ld.X.(*ssa.FreeVar); isFV && c13HasLen(ld.Type()) && isBlob(g, ld) {
+							uses = true
+						}
+					}
+				})
+				if uses {
+					add()
+				}
+			}
+			for ai, arg := range call.Common().Args {
+				if ai < len(g.Params) && c13HasLen(arg.Type()) && isBlob(bf.fn, arg) {
+					add().roots[g.Params[ai]] = true
+				}
+			}
+		})
+	}
+	// the running offset: a local cell of the importer whose load is the low bound of a blob slice
+	var offCell ssa.Value
+	for _, bf := range order {
+		allInstrs(bf.fn, func(_ *ssa.BasicBlock, _ int, in ssa.Instruction) {
+			if sl, ok := in.(*ssa.Slice); ok && sl.Low != nil && isBlob(bf.fn, sl.X) {
+				if ld, ok := sl.Low.(*ssa.UnOp); ok && ld.Op == token.MUL {
+					if cell := e.cell(ld.X); cell != nil {
+						if al, ok := cell.(*ssa.Alloc); ok && al.Parent() == imp {
+							offCell = cell
+						}
+					}
+				}
+			}
+		})
+	}
+	// (i) minimum-length guards: facts len(blob) >= K (K constant) of a blob function
+	type lenGuard struct {
+		f c13Fact
+		k int64
+	}
+	guardsOf := map[*ssa.Function][]lenGuard{}
+	for _, bf := range order {
+		for v, fs := range e.factsOf(bf.fn) {
+			if !c13HasLen(v.Type()) || !isBlob(bf.fn, v) {
+				continue
+			}
+			for _, f := range fs {
+				if !f.lenOf || !f.lb || f.by == nil || len(f.also) > 0 {
+					continue
+				}
+				if _, isConst := c13StripConv(f.by).(*ssa.Const); !isConst {
+					continue
+				}
+				k, ok := constInt(f.by)
+				if !ok {
+					continue
+				}
+				if f.strict {
+					k++
+				}
+				guardsOf[bf.fn] = append(guardsOf[bf.fn], lenGuard{f, k})
+			}
+		}
+	}
+	guardK := int64(-1)
+	for _, g := range guardsOf[imp] {
+		if g.k > guardK {
+			guardK = g.k
+		}
+	}
+	if guardK < 0 {
+		c.Violate(rule, fnName(imp)+"#min-length-guard", "no len(blob) >= constant guard in the importer", imp.Pos())
+		return
+	}
+	// is len(blob) >= need established at instruction in of blob function bf: by a guard of bf itself, or
+	// (for a helper or closure) at every call through which it is entered?
+	var guarded func(bf *c13BlobFn, in ssa.Instruction, need int64, depth int) (ok bool, any bool)
+	guarded = func(bf *c13BlobFn, in ssa.Instruction, need int64, depth int) (bool, bool) {
+		any := false
+		for _, g := range guardsOf[bf.fn] {
+			if e.factDominates(g.f, in, nil) {
+				any = true
+				if g.k >= need {
+					return true, true
+				}
+			}
+		}
+		if bf.fn == imp || len(bf.sites) == 0 || depth > 3 {
+			return false, any
+		}
+		all := true
+		for _, s := range bf.sites {
+			ok, a := guarded(byFn[s.Parent()], s, need, depth+1)
+			any = any || a
+			if !ok {
+				all = false
+			}
+		}
+		return all, any
+	}
+	// writers of the offset cell: stores, and calls of functions that (transitively) store to it
+	writes := map[*ssa.Function]bool{}
+	for changed := true; changed; {
+		changed = false
+		for _, bf := range order {
+			if writes[bf.fn] {
+				continue
+			}
+			allInstrs(bf.fn, func(_ *ssa.BasicBlock, _ int, in ssa.Instruction) {
+				if st, ok := in.(*ssa.Store); ok && offCell != nil && e.cell(st.Addr) == offCell && bf.fn != imp {
+					writes[bf.fn] = true
+					changed = true
+				}
+				if call, ok := in.(ssa.CallInstruction); ok {
+					if g := calleeFn(call); g != nil && writes[g] && !writes[bf.fn] && bf.fn != imp {
+						writes[bf.fn] = true
+						changed = true
+					}
+				}
+			})
+		}
+	}
+	isOffWrite := func(in ssa.Instruction) bool {
+		if st, ok := in.(*ssa.Store); ok {
+			return offCell != nil && e.cell(st.Addr) == offCell
+		}
+		if call, ok := in.(ssa.CallInstruction); ok {
+			if g := calleeFn(call); g != nil && writes[g] {
+				return true
+			}
+		}
+		return false
+	}
+	before := func(a, b ssa.Instruction) bool { // a executes before b on every path to b
+		if a.Block() == b.Block() {
+			return pointOf(a).Idx < pointOf(b).Idx
+		}
+		return a.Block().Dominates(b.Block())
+	}
+	// the offset as a constant at instruction at of the importer: straight line of constant stores/increments
+	offAt := func(at ssa.Instruction) (int64, bool) {
+		if offCell == nil {
+			return 0, false
+		}
+		var evs []ssa.Instruction
+		allInstrs(imp, func(_ *ssa.BasicBlock, _ int, in ssa.Instruction) {
+			if isOffWrite(in) {
+				evs = append(evs, in)
+			}
+		})
+		var prior []ssa.Instruction
+		for _, ev := range evs {
+			switch {
+			case before(ev, at):
+				prior = append(prior, ev)
+			case before(at, ev):
+			default:
+				return 0, false // a write on a side path may or may not have happened
+			}
+		}
+		sort.SliceStable(prior, func(i, j int) bool { return before(prior[i], prior[j]) })
+		cur, known := int64(0), false
+		for i, ev := range prior {
+			if i > 0 && !before(prior[i-1], ev) {
+				return 0, false
+			}
+			st, ok := ev.(*ssa.Store)
+			if !ok {
+				return 0, false // a callee moved the offset
+			}
+			if v, isC := constInt(st.Val); isC {
+				cur, known = v, true
+				continue
+			}
+			bo, ok := st.Val.(*ssa.BinOp)
+			if !ok || bo.Op != token.ADD || !known {
+				return 0, false
+			}
+			k, isC := constInt(bo.Y)
+			ld, isLd := bo.X.(*ssa.UnOp)
+			if !isC || !isLd || ld.Op != token.MUL || e.cell(ld.X) != offCell {
+				return 0, false
+			}
+			cur += k
+		}
+		return cur, known
+	}
 	isLenBlob := func(fn *ssa.Function, v ssa.Value) bool {
 		call, ok := c13StripConv(v).(*ssa.Call)
 		if !ok {
 			return false
 		}
 		b, ok := call.Call.Value.(*ssa.Builtin)
-		return ok && b.Name() == "len" && isBlob(fn, call.Call.Args[0])
+		return ok && b.Name() == "len" && len(call.Call.Args) == 1 && isBlob(fn, call.Call.Args[0])
 	}
-	// (i) the minimum-length guard and its constant
-	var guard *Edge
-	var guardK int64
-	for _, b := range imp.Blocks {
-		ifi := blockIf(b)
-		if ifi == nil {
-			continue
-		}
-		a := condAtom(ifi.Cond)
-		if a.Op != token.LSS && a.Op != token.GEQ {
-			continue
-		}
-		k, isC := constInt(a.Y)
-		if !isC || !isLenBlob(imp, a.X) {
-			continue
-		}
-		okEdge := 1 // len(blob) < K false edge
-		if a.Op == token.GEQ {
-			okEdge = 0
-		}
-		if a.Neg {
-			okEdge = 1 - okEdge
-		}
-		if guard == nil || k > guardK {
-			guard, guardK = &Edge{b, okEdge}, k
-		}
-	}
-	if guard == nil {
-		c.Violate(rule, fnName(imp)+"#min-length-guard", "no len(blob) >= constant guard in the importer", imp.Pos())
-		return
-	}
-	nAcc := 0
-	bad := 0
-	allInstrs(imp, func(_ *ssa.BasicBlock, _ int, in ssa.Instruction) {
-		var x ssa.Value
-		switch y := in.(type) {
-		case *ssa.Slice:
-			x = y.X
-		case *ssa.IndexAddr:
-			x = y.X
-		case *ssa.Index:
-			x = y.X
-		case *ssa.Lookup:
-			x = y.X
-		}
-		if x == nil || !isBlob(imp, x) {
-			return
-		}
-		nAcc++
-		if !e.dominates(*guard, in, nil) {
-			bad++
-			c.Violate(rule, fmt.Sprintf("%s#blob-access%d", fnName(imp), nAcc), "blob is sliced/indexed before the minimum-length guard", in.Pos())
-		}
-	})
-	if bad == 0 {
-		c.Ok(rule, fnName(imp)+"#blob-accesses-after-guard", fmt.Sprintf("all %d fixed-part accesses to the blob follow len(blob) >= %d", nAcc, guardK), imp.Pos())
-	}
-	c.MinCount(rule, "fixed-part blob accesses", nAcc, 8)
-	// (ii) bytes consumed by the fixed part: evaluate the stores to the offset cell along the straight line
-	var offCell *ssa.Alloc
-	allInstrs(imp, func(_ *ssa.BasicBlock, _ int, in ssa.Instruction) {
-		if sl, ok := in.(*ssa.Slice); ok && isBlob(imp, sl.X) && sl.Low != nil {
-			if ld, ok := sl.Low.(*ssa.UnOp); ok && ld.Op == token.MUL {
-				if al, ok := ld.X.(*ssa.Alloc); ok {
-					offCell = al
+	nFixed, nVar, maxFixed := 0, 0, int64(0)
+	badFixed := 0
+	ord := map[*ssa.Function]int{}
+	for _, bf := range order {
+		fn := bf.fn
+		facts := e.factsOf(fn)
+		allInstrs(fn, func(_ *ssa.BasicBlock, _ int, in ssa.Instruction) {
+			var x, bound ssa.Value
+			plus := int64(0) // the access needs len(blob) >= bound + plus
+			switch y := in.(type) {
+			case *ssa.Slice:
+				x, bound = y.X, y.High
+				if bound == nil {
+					bound = y.Low // blob[k:]: needs k <= len
+				}
+			case *ssa.IndexAddr:
+				x, bound, plus = y.X, y.Index, 1
+			case *ssa.Index:
+				x, bound, plus = y.X, y.Index, 1
+			case *ssa.Lookup:
+				x, bound, plus = y.X, y.Index, 1
+			}
+			if x == nil || !isBlob(fn, x) {
+				return
+			}
+			ord[fn]++
+			// constant bound, or running offset + constant in the straight-line prefix of the importer
+			need, isFixed := int64(0), false
+			if bound == nil {
+				need, isFixed = 0, true
+			} else if k, ok := c13FoldConst(bound, 0); ok {
+				need, isFixed = k+plus, true
+			} else if fn == imp {
+				v, k := c13StripConv(bound), int64(0)
+				if bo, ok := v.(*ssa.BinOp); ok && bo.Op == token.ADD {
+					if kk, isC := constInt(bo.Y); isC {
+						v, k = bo.X, kk
+					}
+				}
+				if ld, ok := v.(*ssa.UnOp); ok && ld.Op == token.MUL && offCell != nil && e.cell(ld.X) == offCell {
+					if cur, known := offAt(in); known {
+						need, isFixed = cur+k+plus, true
+					}
 				}
 			}
-		}
-	})
-	if offCell == nil {
-		c.Undecided(rule, fnName(imp)+"#offset-cell", "the running offset of the importer is not a local variable the rule can follow", imp.Pos())
-	} else {
-		var stores []*ssa.Store
-		allInstrs(imp, func(_ *ssa.BasicBlock, _ int, in ssa.Instruction) {
-			if st, ok := in.(*ssa.Store); ok && st.Addr == ssa.Value(offCell) {
-				stores = append(stores, st)
-			}
-		})
-		sort.SliceStable(stores, func(i, j int) bool {
-			bi, bj := stores[i].Block(), stores[j].Block()
-			if bi == bj {
-				return pointOf(stores[i]).Idx < pointOf(stores[j]).Idx
-			}
-			return bi.Dominates(bj)
-		})
-		cur := int64(0)
-		decided := true
-		for i, st := range stores {
-			if i > 0 && !(stores[i-1].Block() == st.Block() || stores[i-1].Block().Dominates(st.Block())) {
-				decided = false
-			}
-			if v, isC := constInt(st.Val); isC {
-				cur = v
-				continue
-			}
-			bo, ok := st.Val.(*ssa.BinOp)
-			if !ok || bo.Op != token.ADD {
-				decided = false
-				break
-			}
-			k, isC := constInt(bo.Y)
-			ld, isLd := bo.X.(*ssa.UnOp)
-			if !isC || !isLd || ld.X != ssa.Value(offCell) {
-				decided = false
-				break
-			}
-			cur += k
-		}
-		if !decided || len(stores) == 0 {
-			c.Undecided(rule, fnName(imp)+"#fixed-length", "the fixed-part offset arithmetic is not a straight line of constant increments", imp.Pos())
-		} else {
-			c.Check(cur <= guardK, rule, fnName(imp)+"#fixed-length<=guard", fmt.Sprintf("fixed part consumes %d bytes, guard demands %d", cur, guardK), fmt.Sprintf("the fixed part consumes %d bytes but the guard only demands %d: a short blob is sliced out of range", cur, guardK), imp.Pos())
-		}
-		// (iii) the variable-field reader(s): closures that slice the blob at off+x
-		nVar := 0
-		for _, cl := range imp.AnonFuncs {
-			allInstrs(cl, func(_ *ssa.BasicBlock, _ int, in ssa.Instruction) {
-				sl, ok := in.(*ssa.Slice)
-				if !ok || !isBlob(cl, sl.X) || sl.High == nil {
-					return
+			if isFixed {
+				nFixed++
+				if need > maxFixed {
+					maxFixed = need
 				}
-				nVar++
-				key := fmt.Sprintf("%s#blob-slice%d", fnName(cl), nVar)
-				hb, ok := sl.High.(*ssa.BinOp)
-				if !ok || hb.Op != token.ADD {
-					c.Undecided(rule, key, "slice bound is not of the form off+x", sl.Pos())
-					return
+				if ok, any := guarded(bf, in, need, 0); !ok {
+					badFixed++
+					if !any {
+						c.Violate(rule, fmt.Sprintf("%s#blob-access%d", fnName(fn), ord[fn]), "blob is sliced/indexed before the minimum-length guard", in.Pos())
+					} else {
+						c.Violate(rule, fmt.Sprintf("%s#blob-access%d", fnName(fn), ord[fn]), fmt.Sprintf("the access needs %d bytes but the dominating length guard demands fewer (the importer's guard: %d): a short blob is sliced out of range", need, guardK), in.Pos())
+					}
 				}
-				guarded := false
-				for _, b := range cl.Blocks {
-					ifi := blockIf(b)
-					if ifi == nil {
+				return
+			}
+			// variable bound: off+x (or off) compared with len(blob) on the dominating path
+			nVar++
+			key := fmt.Sprintf("%s#blob-slice%d", fnName(fn), nVar)
+			hb, _ := c13StripConv(bound).(*ssa.BinOp)
+			var hl *ssa.UnOp
+			if hb == nil {
+				hl, _ = c13StripConv(bound).(*ssa.UnOp)
+			}
+			if (hb == nil || hb.Op != token.ADD) && (hl == nil || hl.Op != token.MUL) || plus != 0 {
+				c.Undecided(rule, key, "the bound of this blob access is not of the form off+x", in.Pos())
+				return
+			}
+			ok := false
+			for v, fs := range facts {
+				same := false
+				if gb, isAdd := v.(*ssa.BinOp); isAdd && gb.Op == token.ADD && hb != nil {
+					same = c13SameAddend(e, gb, hb)
+				} else if gl, isLd := v.(*ssa.UnOp); isLd && gl.Op == token.MUL && hl != nil {
+					same = e.cell(gl.X) != nil && e.cell(gl.X) == e.cell(hl.X)
+				}
+				if !same {
+					continue
+				}
+				for _, f := range fs {
+					if !f.ub || f.lenOf || f.by == nil || len(f.also) > 0 || !isLenBlob(fn, f.by) || !e.factDominates(f, in, nil) {
 						continue
 					}
-					a := condAtom(ifi.Cond)
-					gb, isAdd := a.X.(*ssa.BinOp)
-					if !isAdd || gb.Op != token.ADD || !isLenBlob(cl, a.Y) || !c13SameAddend(e, gb, hb) {
-						continue
-					}
-					okEdge := -1
-					switch a.Op {
-					case token.GTR:
-						okEdge = 1
-					case token.LEQ:
-						okEdge = 0
-					}
-					if okEdge < 0 {
-						continue
-					}
-					if a.Neg {
-						okEdge = 1 - okEdge
-					}
-					ge := Edge{b, okEdge}
-					if !e.dominates(ge, sl, nil) {
-						continue
-					}
-					// no write to the offset between the test and the slice
+					// no write to the offset between the test and the access
 					clean := true
-					allInstrs(cl, func(_ *ssa.BasicBlock, _ int, x ssa.Instruction) {
-						st, ok := x.(*ssa.Store)
-						if !ok || e.cell(st.Addr) != ssa.Value(offCell) {
-							return
+					var cellV ssa.Value
+					if hb != nil {
+						if ld, isLd := hb.X.(*ssa.UnOp); isLd {
+							cellV = e.cell(ld.X)
 						}
-						if e.dominates(ge, st, nil) && (st.Block() != sl.Block() && st.Block().Dominates(sl.Block()) || st.Block() == sl.Block() && pointOf(st).Idx < pointOf(sl).Idx) {
+					} else {
+						cellV = e.cell(hl.X)
+					}
+					allInstrs(fn, func(_ *ssa.BasicBlock, _ int, w ssa.Instruction) {
+						st, isSt := w.(*ssa.Store)
+						wr := isSt && e.cell(st.Addr) != nil && e.cell(st.Addr) == cellV
+						if call, isCall := w.(ssa.CallInstruction); isCall && cellV == offCell {
+							if g := calleeFn(call); g != nil && writes[g] {
+								wr = true
+							}
+						}
+						if wr && e.factDominates(f, w, nil) && before(w, in) {
 							clean = false
 						}
 					})
 					if clean {
-						guarded = true
+						ok = true
 					}
 				}
-				c.Check(guarded, rule, key, "bound off+x tested against len(blob) on the dominating path", "blob[off:off+x] is not dominated by a test of off+x against len(blob): a truncated blob panics", sl.Pos())
-			})
-		}
-		c.MinCount(rule, "variable-field blob slices", nVar, 2)
+			}
+			c.Check(ok, rule, key, "bound off+x tested against len(blob) on the dominating path", "blob[off:off+x] is not dominated by a test of off+x against len(blob): a truncated blob panics", in.Pos())
+		})
 	}
+	if badFixed == 0 {
+		c.Ok(rule, fnName(imp)+"#blob-accesses-after-guard", fmt.Sprintf("all %d fixed-part accesses to the blob follow len(blob) >= %d", nFixed, guardK), imp.Pos())
+		c.Ok(rule, fnName(imp)+"#fixed-length<=guard", fmt.Sprintf("fixed part reaches byte %d, guard demands %d", maxFixed, guardK), imp.Pos())
+	}
+	c.MinCount(rule, "fixed-part blob accesses", nFixed, 1)
+	c.MinCount(rule, "variable-field blob slices", nVar, 1)
 }
 
-// c13SameAddend: two sums load(cell)+x with the same cell and the same x (same SSA value or equal constants).
+// c13FoldConst: the value of an integer expression built from constants with + - * (a running offset kept
+// in a plain local variable: "off := 4; off += 2").
+func c13FoldConst(v ssa.Value, depth int) (int64, bool) {
+	v = c13StripConv(v)
+	if _, isC := v.(*ssa.Const); isC {
+		return constInt(v)
+	}
+	bo, ok := v.(*ssa.BinOp)
+	if !ok || depth > 40 {
+		return 0, false
+	}
+	x, okx := c13FoldConst(bo.X, depth+1)
+	y, oky := c13FoldConst(bo.Y, depth+1)
+	if !okx || !oky {
+		return 0, false
+	}
+	switch bo.Op {
+	case token.ADD:
+		return x + y, true
+	case token.SUB:
+		return x - y, true
+	case token.MUL:
+		return x * y, true
+	}
+	return 0, false
+}
+
+// c13SameAddend: two sums off+x with the same off (loads of the same cell, or the same SSA value) and the
+// same x (same SSA value or equal constants).
 func c13SameAddend(e *c13Engine, a, b *ssa.BinOp) bool {
 	cellOf := func(v ssa.Value) ssa.Value {
 		if ld, ok := v.(*ssa.UnOp); ok && ld.Op == token.MUL {
@@ -974,7 +1263,7 @@ func c13SameAddend(e *c13Engine, a, b *ssa.BinOp) bool {
 		return nil
 	}
 	ca, cb := cellOf(a.X), cellOf(b.X)
-	if ca == nil || ca != cb {
+	if (ca == nil || ca != cb) && !(a.X == b.X && ca == nil && cb == nil) {
 		return false
 	}
 	if a.Y == b.Y {
@@ -1033,25 +1322,66 @@ func c13r6(c *Ctx) {
 			}
 		})
 	}
-	c.MinCount(rule, "library functions scanned", nFns, 400)
-	c.MinCount(rule, "type assertions inspected", nTA, 10)
-	c.MinCount(rule, "single-result type assertions", nUnchecked, 2)
+	c.MinCount(rule, "library functions scanned", nFns, 50)
+	c.MinCount(rule, "type assertions inspected", nTA, 1)
+	c.Note("%s: %d single-result type assertion(s) (none is required)", rule, nUnchecked)
+}
+
+// c13NetConnField: v is conn.NetConn() on a *tls.Conn loaded from a struct field - directly, or as what a
+// module helper returns on every path ("func (c *X) transport() net.Conn { return c.tlsConn.NetConn() }"):
+// that field.
+func c13NetConnField(v ssa.Value, depth int) (*types.Var, string) {
+	call, ok := v.(*ssa.Call)
+	if !ok {
+		return nil, "operand is not a call result"
+	}
+	o := calleeObj(call)
+	if o != nil && o.Pkg() != nil && o.Pkg().Path() == "crypto/tls" && o.Name() == "NetConn" && len(call.Call.Args) == 1 {
+		_, f, isField := fieldRead(call.Call.Args[0])
+		if !isField {
+			return nil, "the tls.Conn is not loaded from a struct field"
+		}
+		return f, ""
+	}
+	g := calleeFn(call)
+	if g == nil || g.Blocks == nil || fnPkg(g) == nil || !inModule(fnPkg(g).Path()) || depth > 2 {
+		return nil, "operand is not (*tls.Conn).NetConn()"
+	}
+	var f *types.Var
+	for _, b := range g.Blocks {
+		if len(b.Instrs) == 0 {
+			continue
+		}
+		ret, ok := b.Instrs[len(b.Instrs)-1].(*ssa.Return)
+		if !ok {
+			continue
+		}
+		if len(ret.Results) != 1 {
+			return nil, "operand is not (*tls.Conn).NetConn()"
+		}
+		for _, o := range origins(g, ret.Results[0]) {
+			rf, why := c13NetConnField(o, depth+1)
+			if rf == nil || (f != nil && rf != f) {
+				if why == "" {
+					why = "the helper returns connections of different fields"
+				}
+				return nil, why
+			}
+			f = rf
+		}
+	}
+	if f == nil {
+		return nil, "operand is not (*tls.Conn).NetConn()"
+	}
+	return f, ""
 }
 
 // c13LocalDynType recognises x.(T) where x = conn.NetConn() on a *tls.Conn loaded from a struct field
 // every store to which (in the module) is nil or tls.Client/tls.Server(MakeInterface(value of type T), ...).
 func c13LocalDynType(p *Prog, fn *ssa.Function, ta *ssa.TypeAssert) (string, bool) {
-	call, ok := ta.X.(*ssa.Call)
-	if !ok {
-		return "operand is not a call result", false
-	}
-	o := calleeObj(call)
-	if o == nil || o.Pkg() == nil || o.Pkg().Path() != "crypto/tls" || o.Name() != "NetConn" || len(call.Call.Args) != 1 {
-		return "operand is not (*tls.Conn).NetConn()", false
-	}
-	_, f, isField := fieldRead(call.Call.Args[0])
-	if !isField {
-		return "the tls.Conn is not loaded from a struct field", false
+	f, why := c13NetConnField(ta.X, 0)
+	if f == nil {
+		return why, false
 	}
 	n := 0
 	for _, a := range p.fieldAccesses(f) {
